@@ -79,7 +79,7 @@ def corpus():
 
 
 def generate(rng, tier):
-    n = 800 if tier == "quick" else 30000
+    n = 2500 if tier == "quick" else 30000
     cases = []
     for _ in range(n):
         files = gen_tree(rng)
